@@ -109,6 +109,11 @@ impl FaultCtl {
     }
 
     fn buggify(&mut self, cx: &mut Context) -> bool {
+        // The lost-wake-up probe polls parked tasks once more; an injected `Pending` (which wakes
+        // the polled task itself) would look like progress there.
+        if PROBING.with(|p| p.get()) {
+            return false;
+        }
         if self.pending_permille > 0 && self.rng.chance(self.pending_permille, 1000) {
             self.pendings += 1;
             cx.waker().wake_by_ref();
@@ -124,6 +129,11 @@ fn err_of(m: FaultMode) -> SimTransportError {
         FaultMode::Error | FaultMode::SendError => SimTransportError::Injected,
         FaultMode::Eof => SimTransportError::Eof,
     }
+}
+
+thread_local! {
+    /// Set while the harness polls parked tasks at quiescence (no injection then).
+    pub static PROBING: std::cell::Cell<bool> = const { std::cell::Cell::new(false) };
 }
 
 pub type SharedCtl = Rc<RefCell<FaultCtl>>;
@@ -175,6 +185,10 @@ impl AsyncTransport for Faulty {
                     ctl.fired = true;
                     return Poll::Ready(Err(err_of(mode)));
                 }
+            }
+            // A spurious `Pending` (with an immediate wake-up) on the receiving side, too.
+            if ctl.buggify(cx) {
+                return Poll::Pending;
             }
         }
         let res = delegate!(this, t => match Pin::new(t).receive_poll(cx) {
